@@ -51,21 +51,29 @@ package cache
 //@   ensures @len len(ca.Cache) == old(len(ca.Cache)) + 1 && result == nil
 //@   ensures @kept forall(i, 0, old(len(ca.Cache)), ca.Cache[i] == old(ca.Cache[i]))
 //@   ensures @new fresh(top(ca)) && all[string](k, !in(k, top(ca))) && msum(top(ca)) == 0
-//@   ensures[C09] @maps old(mapsOk(ca)) ==> mapsOk(ca)
-//@   ensures[C09] @unique old(unique(ca)) ==> unique(ca)
-//@   ensures[C09] @sized old(sized(ca)) ==> sized(ca)
+//@   ensures @maps old(mapsOk(ca)) ==> mapsOk(ca)
+//@   ensures @backing sameBacking(ca.Cache, old(ca.Cache)) || fresh(ca.Cache)
+//@   ensures @rest unchanged(ca.Sizes, ca.CacheUseSize, ca.CacheSize)
+//@   ensures[C09,C08,C05] @unique old(unique(ca)) ==> unique(ca)
+//@   ensures[C09,C08,C05] @sized old(sized(ca)) ==> sized(ca)
+//@   ensures[C09,C08,C05] @acct old(shape(ca) && acct(ca) && capped(ca)) ==> acct(ca) && capped(ca)
+//@   use old(tsumOne(ca.Cache, 0))
+//@   use tsumSplit(ca.Cache, 0, len(ca.Cache)-1, len(ca.Cache)) && tsumOne(ca.Cache, len(ca.Cache)-1) && tsumSame(ca.Cache, 0, len(ca.Cache)-1)
 
 //@ func (*Cache).Pop
-//@   requires wf(ca)
+//@   requires shape(ca)
+//@   requires[C09,C08,C05] unique(ca) && sized(ca) && acct(ca) && capped(ca)
 //@   modifies ca.Cache, ca.Cache[*], ca.CacheUseSize, ca.Sizes[*]
-//@   ensures[C09,C08] @shape shape(ca) && result == nil
-//@   ensures[C09,C08] @unique unique(ca)
-//@   ensures[C09,C08] @sized sized(ca)
-//@   ensures[C09,C08] @acct acct(ca) && capped(ca)
+//@   ensures @shape shape(ca) && result == nil
+//@   ensures @backing sameBacking(ca.Cache, old(ca.Cache)) || fresh(ca.Cache)
+//@   ensures @levels len(ca.Cache) == max(1, old(len(ca.Cache)) - 1)
+//@   ensures[C09,C08,C05] @unique unique(ca)
+//@   ensures[C09,C08,C05] @sized sized(ca)
+//@   ensures[C09,C08,C05] @acct acct(ca) && capped(ca)
 //@   ensures[C09] @total total(ca) == old(total(ca)) - old(msum(top(ca)))
 //@   use old(tsumSplit(ca.Cache, 0, len(ca.Cache)-1, len(ca.Cache))) && old(tsumOne(ca.Cache, len(ca.Cache)-1)) && old(tsumOne(ca.Cache, 0))
 //@   use tsumSame(ca.Cache, 0, old(len(ca.Cache))-1) && tsumOne(ca.Cache, 0)
-//@   ensures[C09,C05] @scopes old(len(ca.Cache)) > 1 ==> len(ca.Cache) == old(len(ca.Cache)) - 1
+//@   ensures @scopes old(len(ca.Cache)) > 1 ==> len(ca.Cache) == old(len(ca.Cache)) - 1
 //@     && forall(i, 0, len(ca.Cache), ca.Cache[i] == old(ca.Cache[i]))
 //@   ensures[C09,C05] @last old(len(ca.Cache)) == 1 ==> len(ca.Cache) == 1 && all[string](k, !in(k, ca.Cache[0])) && msum(ca.Cache[0]) == 0
 //@   ensures[C09] @released int(ca.CacheUseSize) == (old(int(ca.CacheUseSize)) - old(msum(top(ca)))) % 4294967296
@@ -79,12 +87,13 @@ package cache
 // changes nothing; an accepted call defines the symbol in the current scope
 // only and accounts for exactly its bytes.
 //@ func (*Cache).Add
-//@   requires wf(ca) && int(ca.CacheSize) + len(value) < 4294967296
+//@   requires shape(ca) && int(ca.CacheSize) + len(value) < 4294967296
+//@   requires[C09,C08,C05] unique(ca) && sized(ca) && acct(ca) && capped(ca)
 //@   modifies ca.CacheUseSize, ca.LastValue, ca.Sizes[key], ca.Cache[len(ca.Cache)-1][key]
-//@   ensures[C09,C08] @shape shape(ca) && sameScopes(ca)
-//@   ensures[C09,C08] @unique unique(ca)
-//@   ensures[C09,C08] @sized sized(ca)
-//@   ensures[C09,C08] @acct acct(ca) && capped(ca)
+//@   ensures @shape shape(ca) && sameScopes(ca)
+//@   ensures[C09,C08,C05] @unique unique(ca)
+//@   ensures[C09,C08,C05] @sized sized(ca)
+//@   ensures[C09,C08,C05] @acct acct(ca) && capped(ca)
 //@   ensures[C09,C05] @limit sizeLimit > 0 && len(value) > int(sizeLimit) ==> result != nil
 //@   ensures[C09,C05] @dup old(visible(ca, key)) ==> result != nil
 //@   ensures[C09] @capacity ca.CacheSize > 0 && old(total(ca)) + len(value) > int(ca.CacheSize) ==> result != nil
@@ -102,13 +111,14 @@ package cache
 // Update: same limit rule as Add; a rejected update restores the previous
 // value and size; an accepted one replaces exactly that symbol's bytes.
 //@ func (*Cache).Update
-//@   requires wf(ca) && int(ca.CacheSize) + len(value) < 4294967296
+//@   requires shape(ca) && int(ca.CacheSize) + len(value) < 4294967296
+//@   requires[C09,C08,C05] unique(ca) && sized(ca) && acct(ca) && capped(ca)
 //@   modifies ca.CacheUseSize, ca.Cache[scope(ca, key)][key]
-//@   ensures[C09,C08] @shape shape(ca) && sameScopes(ca)
-//@   ensures[C09,C08] @unique unique(ca)
-//@   ensures[C09,C08] @sized sized(ca)
-//@   ensures[C09,C08] @acct acct(ca)
-//@   ensures[C09,C08] @capped capped(ca)
+//@   ensures @shape shape(ca) && sameScopes(ca)
+//@   ensures[C09,C08,C05] @unique unique(ca)
+//@   ensures[C09,C08,C05] @sized sized(ca)
+//@   ensures[C09,C08,C05] @acct acct(ca)
+//@   ensures[C09,C08,C05] @capped capped(ca)
 //@   ensures[C09,C05] @limit old(ca.Sizes[key]) > 0 && len(value) > int(old(ca.Sizes[key])) ==> result != nil
 //@   ensures[C09,C05] @missing !old(visible(ca, key)) ==> result != nil
 //@   ensures[C09] @capacity ca.CacheSize > 0 && old(total(ca)) - old(len(ca.Cache[scope(ca, key)][key])) + len(value) > int(ca.CacheSize) ==> result != nil
@@ -122,20 +132,22 @@ package cache
 //@   use tsumSame(ca.Cache, 0, old(scope(ca, key))) && tsumSame(ca.Cache, old(scope(ca, key)) + 1, len(ca.Cache))
 
 //@ func (*Cache).Get
-//@   requires shape(ca) && unique(ca)
+//@   requires shape(ca)
+//@   requires[C09,C05] unique(ca)
 //@   ensures[C09,C05] @found result1 == nil ==> visible(ca, key) && in(key, ca.Cache[scope(ca, key)]) && result0 == ca.Cache[scope(ca, key)][key]
 //@   ensures[C09,C05] @missing result1 != nil ==> !visible(ca, key)
 
 // Reset keeps the first scope only and recomputes the used size from it.
 //@ func (*Cache).Reset
-//@   requires wf(ca)
+//@   requires shape(ca)
+//@   requires[C09,C08,C05] unique(ca) && sized(ca) && acct(ca) && capped(ca)
 //@   modifies ca.Cache, ca.CacheUseSize
-//@   ensures[C09,C08,C05] @scopes len(ca.Cache) == 1 && ca.Cache[0] == old(ca.Cache[0])
-//@   ensures[C09,C08] @shape shape(ca)
-//@   ensures[C09,C08] @unique unique(ca)
-//@   ensures[C09,C08] @sized sized(ca)
-//@   ensures[C09,C08] @acct acct(ca)
-//@   ensures[C09,C08] @capped capped(ca)
+//@   ensures @scopes len(ca.Cache) == 1 && ca.Cache[0] == old(ca.Cache[0]) && sameBacking(ca.Cache, old(ca.Cache))
+//@   ensures @shape shape(ca)
+//@   ensures[C09,C08,C05] @unique unique(ca)
+//@   ensures[C09,C08,C05] @sized sized(ca)
+//@   ensures[C09,C08,C05] @acct acct(ca)
+//@   ensures[C09,C08,C05] @capped capped(ca)
 //@   ensures[C09] @released total(ca) == old(msum(ca.Cache[0]))
 //@   use old(tsumSplit(ca.Cache, 0, 1, len(ca.Cache))) && old(tsumOne(ca.Cache, 0))
 //@   use tsumOne(ca.Cache, 0)
